@@ -182,7 +182,12 @@ def gen_cases(rng, tier):
     r = rng.fork("samename")
     cx = [["t/x", [["stringlist", "a"], ["string", "b"]]], ["t/x", [["string", "a"], ["string", "listb"]]]]
     ev = [["t/ev", [["string", "s"], ["varint", "n"]]], ["t/ev", [["string", "s"], ["varint", "n"], ["string", "extra"]]]]
-    for pair in (cx, list(reversed(cx)), ev, list(reversed(ev))):
+    # ... two types with the SAME field names in the same order that differ in the type NAME, or in the TYPE of a field
+    nm = [["sensor/sample", [["string", "unit"], ["float", "reading"]]], ["sensor/counter", [["string", "unit"], ["float", "reading"]]]]
+    ty = [["t/ty", [["string", "unit"], ["float", "reading"]]], ["t/ty", [["string", "unit"], ["varint", "reading"]]]]
+    ty2 = [["t/ty2", [["varint", "k"], ["string", "s"]]], ["t/ty2", [["uint16", "k"], ["bytes", "s"]]]]
+    for pair in (cx, list(reversed(cx)), ev, list(reversed(ev)), nm, list(reversed(nm)), ty, list(reversed(ty)), ty2,
+                 list(reversed(ty2))):
         for _ in range(2 * n):
             recs = [_gen_rec(r, pair[0])] + [_gen_rec(r, r.choice(pair)) for _ in range(r.randint(1, 3))] + [_gen_rec(r, pair[1])]
             cases.append({"kind": "seq", "recs": recs, "stop": not r.chance(30)})
